@@ -39,6 +39,7 @@ type dtCall struct {
 	Args []string // canonical arguments
 	Step int      // index into Steps
 	Pos  token.Pos
+	End  token.Pos
 }
 
 // CallsTo returns the calls on the path whose resolved name ends with suffix.
@@ -335,7 +336,7 @@ func (d *dtEnum) noteCalls(p *dtPath, n ast.Node) (exits bool) {
 			if name == "" {
 				name = d.canon(p, c.Fun)
 			}
-			dc := dtCall{Name: strings.ReplaceAll(name, modPath+"/", ""), Step: len(p.Steps), Pos: c.Pos()}
+			dc := dtCall{Name: strings.ReplaceAll(name, modPath+"/", ""), Step: len(p.Steps), Pos: c.Pos(), End: c.End()}
 			for _, a := range c.Args {
 				dc.Args = append(dc.Args, d.canon(p, a))
 			}
@@ -429,6 +430,8 @@ func (d *dtEnum) stmt(p *dtPath, s ast.Stmt, k func(p *dtPath)) {
 						suffix = []string{"", "#ok"}[i]
 					}
 					d.bind(p, id, base+suffix)
+				} else {
+					p.Steps = append(p.Steps, fmt.Sprintf("store %s = %s#%d", d.canon(p, l), base, i))
 				}
 			}
 		}
